@@ -35,7 +35,56 @@ LIMIT = 2.5
 
 def cases(tier, seed):
     n = 320 if tier == "quick" else 30000
-    return [{"seed": seed * 9973 + i} for i in range(n)]
+    out = [{"seed": seed * 9973 + i} for i in range(n)]
+    # real disulfides in context: long stretches of the local proteins under random rigid motions
+    nr = 14 if tier == "quick" else 1200
+    out += [{"kind": "real", "seed": seed * 8887 + i, "src": ["1AJJ", "1K1I", "1BX8", "1US0", "1QBS", "1AFS", "1A1P"][i % 7]}
+            for i in range(nr)]
+    return out
+
+
+def run_real(spec, res):
+    from ..gen import workload
+    rng = random.Random(spec["seed"])
+    ff = common.FFS[spec["seed"] % 6]
+    m = workload.materialise({"w": "frag", "seed": spec["seed"], "ff": ff,
+                              "p": {"src": spec["src"], "nwin": 1, "long_max": 150, "water_prob": 0.3}})
+    items = m["items"]
+    # rigid motion of the whole structure (detection must not depend on absolute placement)
+    R = random_rotation(rng) if rng.random() < 0.7 else np.eye(3)
+    t = np.array([rng.choice([0.0, rng.uniform(-60, 60), rng.uniform(-900, 900)]) for _ in range(3)])
+    for a in items:
+        if isinstance(a, dict):
+            x = R @ np.array([a["x"], a["y"], a["z"]]) + t
+            a["x"], a["y"], a["z"] = (round(float(v), 3) for v in x)
+    # some cysteines entered under their state names
+    rename = {}
+    for a in items:
+        if isinstance(a, dict) and a["resn"] == "CYS":
+            k = (a["chain"], a["resi"], a["icode"])
+            if k not in rename:
+                rename[k] = rng.choice(["CYS"] * 6 + ["CYX"])
+            a["resn"] = rename[k]
+    text = pdbfmt.to_text(items)
+    P, CA, dist, partners, names = file_truth(text)
+    if not P or any(c is None for c in CA) or any(abs(v - LIMIT) < 2e-3 for v in dist.values()):
+        res.count("real_without_cysteines_or_at_limit")
+        return
+    opts = [f"--ff={ff}"] + rng.choice([[], [], ["--noopt"], ["--nodebump"]])
+    r = pipeline.run(text, opts, workname="c13")
+    res.count("placements")
+    res.count("real_structures")
+    wit = {"src": spec["src"], "seed": spec["seed"], "opts": opts, "n_cys": len(P),
+           "pairs_within_limit": sorted({tuple(sorted((i, j))) for i, ps in partners.items() for j in ps}),
+           "input_names": names}
+    if not r.ok:
+        res.count("runs_failed")
+        res.note(f"real {spec['src']} failed: {type(r.exc).__name__} {str(r.exc)[:80]}")
+        return
+    res.cell("real", spec["src"], ff)
+    res.nt("real", spec["src"], ff, tuple(opts[1:]), len(P))
+    judge(res, r, ff, P, CA, dist, partners, wit, names)
+    res.sample = {"kind": "real", "src": spec["src"], "cysteines": len(P), "bridges": len(wit["pairs_within_limit"])}
 
 
 def sg_of(res):
@@ -155,6 +204,9 @@ def judge(res, r, ff, P, CA, dist, partners, wit, names):
 
 def run_case(spec):
     res = Res()
+    if spec.get("kind") == "real":
+        run_real(spec, res)
+        return res
     rng = random.Random(spec["seed"])
     c = rng.random()
     if c < 0.55:
